@@ -42,7 +42,8 @@ FitStep(ev) ==
   ELSE IF \E i \in 1..nC : Lt(Shift(xi0(i), 2), DM!Norm2(ev.v[i])) THEN R({}, {"X11.degenerate_bound"})
   ELSE IF Gt(Mul(MaxAbsM(M), MaxAbsM(ev.P)), <<1, 1, <<4096>>>>) THEN R({}, {"X11.ill_conditioned"})
   ELSE R(
-    G("C11.M_is_symmetric_positive_definite",
+    G("C11.supervised_constraints_are_implied_by_the_labels", ev.constraints_ok)
+    \cup G("C11.M_is_symmetric_positive_definite",
       AllFinM(ev.chol) /\ (\A i \in 1..d : IsPos(ev.chol[i][i])) /\ ApproxM(DM!Gram(ev.chol), M, 1, 1, MaxAbsM(M)))
     \cup G("C11.duals_nonnegative", \A i \in 1..nC : IsFin(ev.lam[i]) /\ ~IsNeg(ev.lam[i]))
     \cup G("C11.inverse_difference_is_signed_combination_of_constraints",
@@ -70,7 +71,7 @@ FitStep(ev) ==
                 IF ev.y[i] = 1 THEN Leq(q, xi0(i)) ELSE Leq(xi0(i), q)
           THEN G("C11.prior_returned_when_it_satisfies_all_bounds", ApproxM(M, ev.M0, 2, 2, MaxAbsM(ev.M0)))
           ELSE {}),
-    {"C11.M_is_symmetric_positive_definite", "C11.duals_nonnegative",
+    {"C11.M_is_symmetric_positive_definite", "C11.duals_nonnegative", "C11.supervised_constraints_are_implied_by_the_labels",
      "C11.inverse_difference_is_signed_combination_of_constraints"}
     \cup (IF ev.has_xi THEN {"C11.slack_relation"} ELSE {})
     \cup (IF converged /\ ev.has_xi THEN {"C11.complementary_slackness_at_convergence"} ELSE {})
